@@ -41,7 +41,7 @@ BVALPP = "validate=v;postprocess=p:" + lab.ALT_SCHEME + "b<<vp"
 MISSING = S + "missing"
 LIMIT = 200_000
 
-DL_KINDS = ["raise_before", "raise_half", "crash_open", "crash_half", "crash_done"]
+DL_KINDS = ["raise_before", "raise_half", "notfound_now", "crash_open", "crash_half", "crash_done"]
 RP_KINDS = ["crash_before_replace", "crash_after_replace"]
 PP_KINDS = ["pp_raise_before", "pp_raise_half", "pp_crash_half"]
 VAL_KINDS = ["invalid", "val_raise"]
@@ -384,6 +384,9 @@ def scenarios(tier):
         "cpp_a": [CPP, A],
         "aval_b": [AVAL, B],
         "bvalpp_c": [BVALPP, C_],
+        # the same URI at two positions of one request
+        "aa": [A, A],
+        "aba": [A, B, A],
     }
     prefixes = {"none": [], "a": [[A]], "ab": [[A, B]], "aval_bvp": [[AVAL, BVALPP]],
                 # the entries are cached and have been ACCEPTED by the validator once before the faulted request
